@@ -577,6 +577,19 @@ def main(argv):
         os.environ["HX_TMPDIR"] = codeclog.scratch_dir()
         asan_lines(c, "hx_compress", [l for l in lines if len(l) < 400000], what="(ReadCompressed/WriteCompressed/GZCompress)")
 
+    # --- thorough: GZCompress beyond what zlib takes in one call (avail_in is an unsigned int): the harness
+    #     generates the record itself and reports what the result expands to
+    if c.tier == "thorough":
+        big = ["ZL %d" % n for n in (4294967295, 4294967296, 4294967301, 8589934590)]
+        env = dict(os.environ, HX_CASE_TIMEOUT="900", HX_TMPDIR=codeclog.scratch_dir())
+        rcb, bout, berr = run_lines(impl, big, timeout=3000, env=env)
+        for l, o in zip(big, bout + ["(no answer)"] * len(big)):
+            n = int(l.split()[1])
+            c.count(("ZL", n), bucket="oneshot/above-4GiB")
+            if o.split(" ")[0] != "OK" or o.split(" ")[2:] != [str(n)]:
+                c.violation("gzcompress-large-record: GZCompress of %d bytes expands to %s (silent truncation modulo 2^32?)" % (n, o),
+                            {"op": "GZCompress", "harness_line": l, "impl": o, "how": "echo '%s' | hx_compress  (needs ~5 GB of memory)" % l})
+
     # --- the real tool writing through ThreadedBufferedStream<WriteCompressed>
     sd = os.path.join(codeclog.scratch_dir(), "c15-shard-%d" % os.getpid())
     for comp in ("gzip", "bzip2"):
